@@ -72,6 +72,9 @@ def gen_series(rng, it, tier):
         vals[rng.random(n) < 0.1] = -float(rng.integers(1, 9)) / 4.0
     elif k == 3:
         vals[rng.random(n) < 0.3] = 0.0
+    elif k == 4:
+        # values that need more than a single-precision mantissa
+        vals = vals + 2.0 ** 26 * rng.integers(0, 3, size=n)
     return stamps, vals
 
 
